@@ -181,6 +181,16 @@ Theorem C14_every_parser_pushes_visible_names_only :
 Proof. intros env docgen p Vn Vc Hn Hc. exact (proj1 (ceval_visible_all env docgen) p Vn Vc Hn Hc). Qed.
 Print Assumptions C14_every_parser_pushes_visible_names_only.
 
+(* both stages together: whatever candidates Complete::complete computes from the hints the parser of a command level
+   collected, each stems (through comp_item: name filters, preferred spelling) from a hint that names a visible item of
+   the definition, or is a completer's value, a placeholder or a shell completer *)
+Theorem C14_candidates_stem_from_visible_items :
+  forall env docgen p s c arg po nm px i,
+    In i (fst (complete (kcomps (snd (snd (ceval env docgen p (s, Some (mkCst [] (cs_rev c) (cs_nopos c))))))) arg po nm px)) ->
+    exists h, name_ok (vis_names p) (vis_cmds p) h /\ comp_item arg po px h = Some i.
+Proof. exact level_candidates_from_visible_items. Qed.
+Print Assumptions C14_candidates_stem_from_visible_items.
+
 (* non-vacuity: a visible switch --alpha next to a hidden switch --beta: only --alpha is a visible name *)
 Example C14_example_visible_names :
   vis_names (XCon (XCons (XFlag (mkNamed [] [[97;108;112;104;97]%N] [] None) (VBool true) (Some (VBool false)))
